@@ -214,7 +214,107 @@ def run_C13(ctx, R):
     _per_config(ctx, R, tab.tab13)
 
 
+def _only_functions(rule, names, floor_rule, floor):
+    def run(units, r):
+        tmp = Results(config=r.config)
+        rule(units, tmp)
+        kept = [o for o in tmp.obs if o.function in names]
+        r.obs.extend(kept)
+        r.notes.extend(tmp.notes)
+        r.floor(floor_rule, 'obligations in %s' % sorted(names)[:3], len(kept), floor)
+    return run
+
+
+CORE_MUTATORS = {'add_item_to_array', 'add_item_to_object', 'cJSON_DetachItemViaPointer', 'cJSON_InsertItemInArray',
+                 'cJSON_ReplaceItemViaPointer', 'replace_item_in_object', 'cJSON_CreateIntArray', 'cJSON_CreateFloatArray',
+                 'cJSON_CreateDoubleArray', 'cJSON_CreateStringArray', 'parse_array', 'parse_object', 'cJSON_Duplicate_rec',
+                 'cJSON_CreateObjectReference', 'cJSON_CreateArrayReference', 'suffix_object'}
+
+
+def run_C06(ctx, R):
+    from .rules import lst, tree, parse
+
+    def core_lst1(units, r):
+        tmp = Results(config=r.config)
+        lst.lst1(units, tmp)
+        kept = [o for o in tmp.obs if o.file == 'cJSON.c']
+        r.obs.extend(kept)
+        r.floor('LST1', 'child stores in cJSON.c', len(kept), 11)
+    _per_config(ctx, R, core_lst1)
+
+    def core_lst2(units, r):
+        tmp = Results(config=r.config)
+        tree.lst2(units, tmp)
+        kept = [o for o in tmp.obs if o.file == 'cJSON.c']
+        r.obs.extend(kept)
+        r.floor('LST2', 'list idioms in cJSON.c', len(kept), 4)
+    _per_config(ctx, R, core_lst2)
+    _per_config(ctx, R, tree.lst3)
+    _per_config(ctx, R, tree.lst4)
+    _per_config(ctx, R, parse.tab7)
+
+
+def run_C11(ctx, R):
+    from .rules import tree, parse, lst
+    _per_config(ctx, R, tree.tab14)
+    _per_config(ctx, R, _only_functions(parse.tab1, {'cJSON_Duplicate_rec'}, 'TAB1', 2))
+    _per_config(ctx, R, _only_functions(lst.lst1, {'cJSON_Duplicate_rec'}, 'LST1', 1))
+    _per_config(ctx, R, _only_functions(tree.lst4, {'cJSON_Duplicate', 'cJSON_Duplicate_rec'}, 'LST4', 0))
+
+
+def run_C12(ctx, R):
+    from .rules import tree, tab
+    _per_config(ctx, R, tree.eff6)
+    _per_config(ctx, R, tree.c12_structure)
+    _per_config(ctx, R, _only_functions(tree.tab3, {'cJSON_Compare', 'cJSON_IsInvalid', 'cJSON_IsFalse', 'cJSON_IsTrue', 'cJSON_IsBool',
+                                                    'cJSON_IsNull', 'cJSON_IsNumber', 'cJSON_IsString', 'cJSON_IsArray', 'cJSON_IsObject',
+                                                    'cJSON_IsRaw'}, 'TAB3', 12))
+    _scoped(ctx, R, tab.tab11, {'cJSON_Compare'}, 4)
+    _per_config(ctx, R, _only_functions(tree.lst4, {'cJSON_Compare'}, 'LST4', 1))
+
+
 PROPERTIES = {
+    'C06': {
+        'run': run_C06, 'modules': ['tree', 'utils'],
+        'explanation':
+            "The sibling-chain consistency sentence of the property as maintenance obligations on every mutator of cJSON.c. "
+            "LST1: every path through a store X->child = V passes a store to V->prev / X->child->prev (unless V is NULL on "
+            "that path or the container is released). LST2: the unlink, take-over (replace), insert-before, append and "
+            "first-element idioms each re-establish every link they invalidate (both neighbours, head, tail, cleared links "
+            "of the detached item). LST3: in the public edit functions no refusal return is reachable after a link store, so a "
+            "refused call leaves the containers unchanged. LST4: every dereference of a pointer parameter of a public "
+            "function is preceded on all paths by a NULL test of it (listed exceptions with reasons). TAB7: the three "
+            "writers of valueint follow the saturation template.",
+        'not_decided': ['equivalence with the ordered-list/map model over edit histories (which element ends up where)',
+                        'lookup semantics (first match, case folding)', 'success flags as values'],
+    },
+    'C11': {
+        'run': run_C11, 'modules': ['tree', 'parse', 'utils'],
+        'explanation':
+            "TAB14: every field of struct cJSON is either assigned in the duplicator or is a sibling link left zero; pointer "
+            "fields of the copy receive fresh allocations (allocator closure computed from the bodies) or, for the key only, "
+            "the source key under cJSON_StringIsConst; the stored type is the source type with exactly the reference bit "
+            "masked out; no whole-node copy; children are visited only when recurse is set. TAB1: the recursive call is "
+            "guarded by the CJSON_CIRCULAR_LIMIT test and passes depth + 1 (cyclic input terminates, stack bounded). LST1: the "
+            "copy's child chain gets its tail link on every path that does not release the partial copy. LST4: NULL source "
+            "refused.",
+        'not_decided': ["'compares equal / prints identical' as values", 'independence under later edit histories beyond the '
+                        'no-sharing clause', 'release of the partial copy on every failure path (OWN2, C08)'],
+    },
+    'C12': {
+        'run': run_C12, 'modules': ['tree', 'utils'],
+        'explanation':
+            "EFF6: cJSON_Compare and everything it calls store only to their own locals and call only pure functions, so the "
+            "arguments are never modified. C12S: in the array arm `return true` is reachable only with both element cursors "
+            "exhausted (nullness facts by dataflow); in the object arm members are looked up in both objects, every lookup "
+            "result is tested against NULL before a true return, every recursive comparison is a branch condition whose false "
+            "edge returns false; strcmp is reached only after NULL tests of both payloads; the number comparison takes one "
+            "operand from each argument. TAB3: the kind is compared and switched on under the 0xFF mask, all eight kinds are "
+            "valid, the default arm refuses. TAB11: the case flag reaches get_object_item and both recursive calls unchanged. "
+            "LST4: NULL arguments refused before any dereference.",
+        'not_decided': ['numeric tolerance semantics (the infinite-operand defect named in the property is a value-level '
+                        'predicate of compare_double)', 'reflexivity/symmetry as such'],
+    },
     'C01': {
         'run': run_C01, 'modules': ['parse'],
         'explanation':
